@@ -3,13 +3,14 @@ CONSTANTS
  BNErrs = {"bnval", "bnptr"}
  Variant = "accept_late"
  MCTypes = {"attester"}
+ MCMain = "attester"
  MCIncl = {"proposer"}
  MCPKs = {"a"}
  MCErrs = {"nil"}
  MCRoots = {"x", "y"}
  MCN = 2
+ MCSteps = {1, 10}
  MaxCalls = 3
-INVARIANTS SuccessIffFinal StuckStep ReasonOfStep Dependency Participation AnalysedOnce
+INVARIANTS SuccessIffFinal StuckStep ReasonOfStep Dependency Participation AnalysedOnce AnalysedHadDeadline
 PROPERTIES MCOnlyAtDeadline MCLateDropped
-VIEW View
 CHECK_DEADLOCK FALSE
